@@ -55,6 +55,21 @@ pub(crate) mod verif_data {
             _ => 2,
         }
     }
+    /// string buffers of the key operands, by address: lets the stub identify a key without reading
+    /// its bytes back from the heap (which CBMC would treat as symbolic)
+    pub(crate) static mut KEY_BUF: [*const u8; 8] = [std::ptr::null(); 8];
+    pub(crate) static mut KEY_BUF_IDX: [usize; 8] = [0; 8];
+    pub(crate) static mut KEY_BUF_N: usize = 0;
+    fn lookup_buf(p: *const u8) -> Option<usize> {
+        let mut i = 0;
+        while i < unsafe { KEY_BUF_N } {
+            if unsafe { KEY_BUF[i] } == p {
+                return Some(unsafe { KEY_BUF_IDX[i] });
+            }
+            i += 1;
+        }
+        None
+    }
     /// contract stub for `get_key`: null / "" -> the entire data; otherwise the presence function.
     pub(crate) fn get_key_stub(data: &Value, key: KeyType) -> Option<Value> {
         if data as *const Value != unsafe { OUTER } {
@@ -63,11 +78,16 @@ pub(crate) mod verif_data {
         let idx = match &key {
             KeyType::Null => return Some(crate::verif_support::value_clone_shallow(data)),
             KeyType::String(k) => {
-                let b = k.as_bytes();
-                if b.len() == 0 {
+                if k.len() == 0 {
                     return Some(crate::verif_support::value_clone_shallow(data));
                 }
-                key_idx(b[0])
+                match lookup_buf(k.as_ptr()) {
+                    Some(i) => i,
+                    None => {
+                        assert!(false, "lookup with a key string that is not one of the operands");
+                        0
+                    }
+                }
             }
             KeyType::Number(_) => 3,
         };
@@ -82,8 +102,16 @@ pub(crate) mod verif_data {
         }
     }
     fn label(b: u8) -> Value {
-        let mut s = String::from("a");
-        unsafe { s.as_bytes_mut()[0] = b };
+        let s = match b {
+            b'a' => String::from("a"),
+            b'b' => String::from("b"),
+            _ => String::from("c"),
+        };
+        unsafe {
+            KEY_BUF[KEY_BUF_N] = s.as_ptr();
+            KEY_BUF_IDX[KEY_BUF_N] = key_idx(b);
+            KEY_BUF_N += 1;
+        }
         Value::String(s)
     }
     fn plan(pres: u8) {
